@@ -221,6 +221,12 @@ async fn spawn(engine: nu::Engine, store: Store, task: GeneratorTask) {
                 async move {
                     if frame.topic == format!("{}.send", topic) {
                         if let Some(hash) = frame.hash {
+                            // under simulation read the content synchronously, so that a poll of
+                            // this stream is pending only when no input is available
+                            #[cfg(xs_verif)]
+                            if crate::verif::active() {
+                                return store.cas_read_sync(&hash).ok();
+                            }
                             if let Ok(content) = store.cas_read(&hash).await {
                                 return Some(content);
                             }
